@@ -37,7 +37,7 @@ def describe(path):
     return {"t0": first_pt, "id": mid, "market_type": mtype or "NA", "n": n}
 
 
-def scenario(keys, sid, seed, n_strats=2, p_action=0.08, max_orders=14, cfg=None, listener_kwargs=None, event_processing=False):
+def scenario(keys, sid, seed, n_strats=2, p_action=0.08, max_orders=14, cfg=None, listener_kwargs=None, event_processing=False, max_lines=None):
     root = repo_root()
     markets, t0 = [], None
     for k in keys:
@@ -46,7 +46,10 @@ def scenario(keys, sid, seed, n_strats=2, p_action=0.08, max_orders=14, cfg=None
             continue
         d = describe(path)
         t0 = d["t0"] if t0 is None else min(t0, d["t0"])
-        markets.append({"id": d["id"], "file": path, "market_type": d["market_type"], "updates": [None] * d["n"], "winners": 1})
+        m = {"id": d["id"], "file": path, "market_type": d["market_type"], "updates": [None] * min(d["n"], max_lines or d["n"]), "winners": 1}
+        if max_lines:
+            m["max_lines"] = max_lines
+        markets.append(m)
     c = {"isolation": True, "bpe": True, "event_processing": event_processing}
     if listener_kwargs:
         c["listener_kwargs"] = listener_kwargs
